@@ -10,6 +10,7 @@ import PonyVerif.Lemmas.Serial
 import PonyVerif.Lemmas.BagWalk
 import PonyVerif.Lemmas.AttrSel
 import PonyVerif.Lemmas.Pickle
+import PonyVerif.Lemmas.Report
 import PonyVerif.Gen.ReducePk
 namespace PonyVerif.Props.C31
 open PonyVerif.Model.Serial
@@ -325,5 +326,88 @@ open PonyVerif.Model.Pickle in
 example : -- the receiving session already holds a NEWER value of `v`: it wins over the pickled one; `s` comes from the pickle
     (unpickle [{ pk := 1, status := .loaded, vals := [("v", 9)] }] { pk := 1, d := [("v", 1), ("s", 5)] }).2.vals = [("v", 9), ("s", 5)]
     ∧ (reduce { pk := 1, status := .modified, vals := [] }).toOption = none := by decide
+
+/-! ### the value a cell reports determines the current value of the attribute -/
+
+/-- well-formed current value: raw keys are non-empty (every entity has a primary key) -/
+def wfVal : PonyVerif.Model.Report.Val → Prop
+  | .scalar _ => True
+  | .one none => True
+  | .one (some raw) => raw ≠ []
+  | .many ks => ∀ k ∈ ks, k ≠ []
+
+/-- same value up to the order of a collection -/
+def sameVal : PonyVerif.Model.Report.Val → PonyVerif.Model.Report.Val → Prop
+  | .scalar a, .scalar b => a = b
+  | .one a, .one b => a = b
+  | .many a, .many b => a.Perm b
+  | _, _ => False
+
+open PonyVerif.Model.Report in
+/-- BAG: for EVERY current value (scalar, to-one with a key of any column count, collection of keys of any column count and
+    any contents) and every sorting function, reading the reported cell back gives the current value — exactly for scalars
+    and to-one relations, up to order for collections.  So the bag reports the current value of the attribute and two different
+    states are never reported alike. -/
+theorem C31_bag_cell_reports_value (srt : List PonyVerif.Model.Serial.Key → List PonyVerif.Model.Serial.Key)
+    (hs : ∀ l, (srt l).Perm l) (v : Val) (hv : wfVal v) :
+    ∃ v', unRep (bagCell srt v) = some v' ∧ sameVal v' v := by
+  cases v with
+  | scalar n => exact ⟨_, rfl, rfl⟩
+  | one k =>
+    cases k with
+    | none => exact ⟨_, rfl, rfl⟩
+    | some raw =>
+      match raw, hv with
+      | [c], _ => exact ⟨_, rfl, rfl⟩
+      | a :: b :: r, _ => exact ⟨_, rfl, rfl⟩
+  | many ks =>
+    refine ⟨_, rfl, ?_⟩
+    show ((srt (ks.map collKey)).filterMap unKey).Perm ks
+    have h1 : ((srt (ks.map collKey)).filterMap unKey).Perm ((ks.map collKey).filterMap unKey) := (hs _).filterMap _
+    rwa [filterMap_unKey_collKey ks hv] at h1
+
+open PonyVerif.Model.Report in
+/-- ENTITY.to_dict (related_objects=False): the same, given that every key of the collection has the column count `cols`
+    of the related entity. -/
+theorem C31_entity_cell_reports_value (srtK : List PonyVerif.Model.Serial.Key → List PonyVerif.Model.Serial.Key)
+    (srtT : List (List String) → List (List String)) (hk : ∀ l, (srtK l).Perm l) (ht : ∀ l, (srtT l).Perm l)
+    (cols : Nat) (hc : 1 ≤ cols) (v : Val) (hv : wfVal v) (hcols : ∀ ks, v = .many ks → ∀ k ∈ ks, k.length = cols) :
+    ∃ v', unRep (entityCell srtK srtT cols v) = some v' ∧ sameVal v' v := by
+  cases v with
+  | scalar n => exact ⟨_, rfl, rfl⟩
+  | one k =>
+    cases k with
+    | none => exact ⟨_, rfl, rfl⟩
+    | some raw =>
+      match raw, hv with
+      | [c], _ => exact ⟨_, rfl, rfl⟩
+      | a :: b :: r, _ => exact ⟨_, rfl, rfl⟩
+  | many ks =>
+    by_cases h : cols > 1
+    · exact ⟨.many (srtT ks), by simp [entityCell, h, unRep], ht ks⟩
+    · have h1 : cols = 1 := by omega
+      refine ⟨.many ((srtK (ks.map (fun raw => PonyVerif.Model.Serial.Key.single (raw.headD "")))).filterMap unKey), by simp [entityCell, h, unRep], ?_⟩
+      show ((srtK _).filterMap unKey).Perm ks
+      have hp := (hk (ks.map (fun raw => PonyVerif.Model.Serial.Key.single (raw.headD "")))).filterMap unKey
+      have hid : (ks.map (fun raw => PonyVerif.Model.Serial.Key.single (raw.headD ""))).filterMap unKey = ks := by
+        have hl : ∀ k ∈ ks, k.length = 1 := fun k hk' => (hcols ks rfl k hk').trans h1
+        clear hp hv hcols
+        induction ks with
+        | nil => rfl
+        | cons k ks ih =>
+          have := hl k List.mem_cons_self
+          match k, this with
+          | [c], _ =>
+            simp only [List.map_cons, List.filterMap_cons, unKey, List.headD_cons]
+            rw [ih (fun x hx => hl x (List.mem_cons_of_mem _ hx))]
+      rwa [hid] at hp
+
+open PonyVerif.Model.Report in
+example : -- a collection of two-column keys made of separators, and a to-one reference with a two-column key
+    bagCell (sortBy (fun a b => decide (keyText a ≤ keyText b))) (.many [["k,", "1"], ["k", ",1"]]) = .keys [.text "k*,,1", .text "k,*,1"]
+    ∧ unRep (.keys [.text "k*,,1", .text "k,*,1"]) = some (.many [["k,", "1"], ["k", ",1"]])
+    ∧ bagCell id (.one (some ["k", "1"])) = .tuple ["k", "1"] := by decide
+
+example : wfVal (.many [["k,", "1"], ["k", ",1"]]) := by simp [wfVal]
 
 end PonyVerif.Props.C31
